@@ -7,7 +7,7 @@ P = [json.loads(l) for l in open('properties.jsonl')]
 TEXT = {
  "C01": "WellScoped/namesOK/importsOK theorems over the model of moq's naming core (under explicit WF predicates) + byte-exact correspondence of the model with the real moq + go/types type-check of every in-WF real output in its destination",
  "C02": "theorems: one generated method and one MFunc field per interface method with the same rendered parameter/result list; qualifier round-trip; tie by correspondence; search: go/types method-set identity",
- "C03": "theorem c03_delegates over the sequential semantics of the generated IR (all arities, variadic, stub modes, arbitrary user code); tie: regenerated template = hand model (byte-equal) + compiled mocks vs model traces",
+ "C03": "theorem c03_delegates over the sequential semantics of the generated IR (all arities, variadic, stub modes, arbitrary user code); tie: bridge theorem (for all data the regenerated template prints printFile (genFile d), whose method bodies are genBody) + byte comparison with the real moq + compiled mocks vs model traces",
  "C04": "theorem c04_all_histories: every history (calls, reads, resets, re-entrant callbacks) refines the list model, snapshots exact and stable (slice-header/backing-array heap with Go append)",
  "C05": "interleaving semantics theorems (mutual exclusion, race freedom, atomic log) over the generated lock protocol; search: compiled mocks under the race detector",
  "C06": "no lock is held at invoke (sequential: c03 entry state; concurrent: invariant of the interleaving semantics); search: re-entrant and blocked callbacks under a watchdog",
@@ -15,15 +15,15 @@ TEXT = {
  "C08": "theorems: reset functions generated iff -with-resets, ResetMCalls clears exactly M, ResetCalls clears all, recording restarts from empty",
  "C09": "theorems on type-parameter lists and the self-check line under WF.generic/WF.ensure; witnesses outside; search: go/types instantiation",
  "C10": "theorems on destination decision (findPkgPath model) and qualification; correspondence; search: type-check in the intended destination",
- "C11": "theorems: imports sorted, once, no dot/blank, vendor stripping; frame of resolveImportConflict for every returning call (aliases only, each a unique name of its own path: every qualifier valid, for all runs); unique qualifiers for conflict-free and shallow conflicts (partial for cascades: reflected checker per input); correspondence (slow + in-memory fast stage) + go/types resolution of every qualifier",
- "C12": "scope invariant theorems of AddVar (partial) + model predicate namesOK evaluated on every generated input + go/types",
+ "C11": "theorems: every imported path was requested (nothing else), imports sorted, once, no dot/blank, vendor stripping; frame of resolveImportConflict for every returning call (aliases only, each a unique name of its own path: every qualifier valid, for all runs); unique qualifiers for conflict-free and shallow conflicts (partial for cascades: reflected checker per input); correspondence (slow + in-memory fast stage) + go/types resolution of every qualifier",
+ "C12": "one step of AddVar keeps the names of a scope pairwise distinct under two explicit decidable side conditions (c12_step_distinct, with a witness that the second cannot be dropped), reflected checker namesOK (sound) evaluated on every generated input, go/types on the real output",
  "C13": "theorem c13_exported_spec (closed form of Exported over the regenerated initialism table), varNameForType rule, reserved list coverage",
  "C14": "theorem: model output independent of the map-iteration oracle under uniqueness; regenerated fact: no time/rand/env reads; repeated real generations byte-compared",
  "C15": "theorems c15_rm_independent / c15_remove_before_load about the regenerated main.run (run_eq_spec); CLI regenerations byte-compared over prior -out contents; fixed point decided on every in-place job of the fast stage (output added to the package in memory, regenerated, byte-compared)",
  "C16": "theorems on the regenerated format dispatch and template header; formatter laws as explicit hypotheses checked dynamically on every output",
  "C17": "theorems c17_fail / c17_ok about the regenerated main.run for all flags, file systems, library behaviours and fault plans; c17_mock_shape decided on the regenerated Mocker.Mock; CLI fault enumeration",
  "C18": "theorem c18_only_out about the regenerated main.run + regenerated list of all os/exec/syscall references; tree snapshots around every CLI scenario",
- "C19": "totality of the model (fuel/Option, nothing defaulted), diagnostics read off the regenerated functions, safe slicing; CLI under a watchdog on adversarial inputs; known findings listed",
+ "C19": "totality of the model (fuel/Option, nothing defaulted), diagnostics read off the regenerated functions, safe slicing; resolveImportConflict and AddImport terminate within D+2 nested calls for every registry of separated packages (c19_resolver_terminates, decidable sepB) with a divergence witness outside; CLI under a watchdog; real panics/hangs asserted wherever the model predicts a normal return",
  "C20": "theorems: one mock per argument in order with the requested name; search: joint vs solo generation compared as go/types",
 }
 claimed = []
